@@ -220,7 +220,8 @@ def run(ctx, c12):
 
     # ---- routes: every way to call a decoder is the same function
     cases = []
-    for k, s in enumerate(feats):
+    wide = feats + sorted(trailing_ws_strings(rng))[::9] + sorted(grid_strings())[::60]
+    for k, s in enumerate(wide):
         for dec in "wu":
             # every route on a rotating third of the strings, the trait method on all
             for r in ROUTES:
@@ -234,10 +235,7 @@ def run(ctx, c12):
         if o.startswith("DIFF:"):
             ctx.fail("route-differs", "a copy / clone of the encoding decodes %r differently: %s" % (unhex(h), o), [c], [o], "one result")
             continue
-        before = len(ctx.failures)
-        c12.check_decode(ctx, as_leaf(dec, h), o)
-        if len(ctx.failures) > before:      # make the replay name the route
-            ctx.failures[-1]["cases"] = [c]
+        c12.check_decode(ctx, as_leaf(dec, h), o, rep=c, note="[via %s]" % r)
     ctx.count("routes", len(cases))
 
     # ---- context: sub-slice of a larger buffer, every alignment, hostile neighbours, address of the borrowed str
@@ -245,7 +243,8 @@ def run(ctx, c12):
     POST = [b"\\\\\\\\\\\\\\\\", b"\xff\xfe\xff\xfe\xff\xfe\xff\xfe", b" \n \n \n \n", b"\xa5\x80\x80\x80", b"\"", b"\\", b"\x80", b""]
     cases = []
     extra = [b"", b" ", b"   \n", b"\t" * 9, filler(7) + b" " * 9, filler(15), filler(16), filler(17) + b"\n"]
-    for k, s in enumerate(feats + extra):
+    more = sorted(trailing_ws_strings(rng))[4::23] + sorted(grid_strings())[7::150]
+    for k, s in enumerate(feats + more + extra):
         for dec in "wu":
             for al in range(0, 9):
                 if (k + al) % 3 and s not in extra:
@@ -264,11 +263,7 @@ def run(ctx, c12):
             ctx.fail("route-differs", "inherent function and trait method disagree on %r: %s" % (d, o), [c], [o], "one result")
             continue
         body, _, ptr = o.partition("@")
-        before = len(ctx.failures)
-        c12.check_decode(ctx, as_leaf(dec, h), body)
-        if len(ctx.failures) > before:
-            ctx.failures[-1]["cases"] = [c]
-            ctx.failures[-1]["what"] += " (as a sub-slice: %d bytes before, %r after)" % (len(unhex(pre)), unhex(post))
+        c12.check_decode(ctx, as_leaf(dec, h), body, rep=c, note="[sub-slice: %d bytes before, %r after]" % (len(unhex(pre)), unhex(post)))
         if body.startswith("B:"):
             exp = "0:%d" % len(trim(d))
             if ptr != exp:
